@@ -88,6 +88,7 @@ var menu = []answer{
 	{name: "200badjson", status: 200, body: "badjson"},
 	{name: "200empty", status: 200, body: "empty"}, // a 200 without a body does not parse either
 	{name: "408", status: 408, body: "text"},
+	{name: "408ra2", status: 408, ra: "2", body: "text"}, // a Retry-After on a 408 is not an instruction the statement knows: no added delay
 	{name: "429", status: 429, body: "text"},
 	{name: "429ra2", status: 429, ra: "2", body: "text"},
 	{name: "503", status: 503, body: "text"},
@@ -258,6 +259,9 @@ func (g *gatedRT) RoundTrip(req *http.Request) (*http.Response, error) {
 	case "junk":
 		h.Set("Retry-After", "soon")
 	}
+	if a.status != 429 && a.status != 503 {
+		ev.askAt = 0 // a Retry-After is an instruction only with the statuses the statement pairs it with
+	}
 	g.rec.add(ev)
 	if a.timeout {
 		return nil, transportTimeout{}
@@ -377,13 +381,17 @@ func runScenario(sc scenario) func(t *testing.T, x *gate.Exec) {
 			switch c.kind {
 			case "none":
 				c.ctx, c.cancel = context.WithCancel(context.Background()) // cancel only used for teardown
+			// the caller's contexts end with a cause of the caller's own (context.WithCancelCause / WithTimeoutCause):
+			// what the call returns is the context's error (Canceled / DeadlineExceeded), not the cause
 			case "cancel":
-				c.ctx, c.cancel = context.WithCancel(context.Background())
+				var cc context.CancelCauseFunc
+				c.ctx, cc = context.WithCancelCause(context.Background())
+				c.cancel = func() { cc(errors.New("the caller is shutting down")) }
 			case "deadline2s":
-				c.ctx, c.cancel = context.WithTimeout(context.Background(), 2*time.Second)
+				c.ctx, c.cancel = context.WithTimeoutCause(context.Background(), 2*time.Second, errors.New("the caller's submission budget is used up"))
 				c.endAt = gate.Now() + 2*time.Second
 			case "deadline10s":
-				c.ctx, c.cancel = context.WithTimeout(context.Background(), 10*time.Second)
+				c.ctx, c.cancel = context.WithTimeoutCause(context.Background(), 10*time.Second, errors.New("the caller's submission budget is used up"))
 				c.endAt = gate.Now() + 10*time.Second
 			}
 			callers[i] = c
@@ -805,7 +813,7 @@ func TestCheck(t *testing.T) {
 		scenario{Name: "1 caller, LogClient.AddChain, every status code", API: "logclient", Callers: 1, Ctx: []string{"cancel"}, MaxBad: 2, Bound: 1, Statuses: true},
 		scenario{Name: "1 caller, json, server keeps answering 503 with Retry-After: 0", API: "json", Callers: 1, Ctx: []string{"cancel"}, MaxBad: kb, Bound: bb, Default: "503ra0"},
 		scenario{Name: "3 callers sharing a client, server keeps answering 429", API: "json", Callers: 3, Ctx: []string{"none", "none", "none"}, MaxBad: kb - 2, Bound: bb - 1, Default: "429"})
-	r.Rule("for each scenario, every choice vector of total deviation cost <= bound (a deviation = answering a pending request other than the canonically first, any answer other than a parsable 200 out of a 26-answer menu, a slow server, a cancellation at one of 4 instants); executions run to completion under virtual time. distinct_nontrivial = distinct observed outcomes (per-caller answer sequence and result)")
+	r.Rule("for each scenario, every choice vector of total deviation cost <= bound (a deviation = answering a pending request other than the canonically first, any answer other than a parsable 200 out of a 27-answer menu, a slow server, a cancellation at one of 4 instants); executions run to completion under virtual time. distinct_nontrivial = distinct observed outcomes (per-caller answer sequence and result)")
 	r.Assume("client jitter (math/rand, 0..249 ms) is not owned: oracles use only the bounds the property states; requests arriving within 300 ms of each other are presented together",
 		"interleavings are explored at the granularity of HTTP round trips; lock-level interleavings inside the shared backoff are covered by the free-running race pass")
 	var summary []map[string]any
